@@ -14,7 +14,8 @@ RULE = ('case = (input batch-size sequence, target size, #columns, container kin
         'enumerated exhaustively for short sequences and drawn by Hypothesis for longer ones, plus the same '
         'streams pushed through TreeTransform apply/select/batch re-batching options; non-trivial = some input '
         'batch larger and some smaller than the target and total rows not a multiple of the target; distinct = '
-        'distinct canonical case JSON')
+        'distinct canonical case JSON'
+        '; also: 2-d array columns, row-dropping / row-duplicating batched functions, fn_batch_size == batch_size, runs of 63..150 tiny input batches')
 ASSUMPTIONS = [
     'cell value of row i column j is i*8+j so misalignment, loss, duplication and reordering are all visible',
     'all columns of an input batch have equal length (documented precondition: heterogeneous columns raise)',
